@@ -34,7 +34,7 @@ vlib.bootstrap()
 from checks import _c06_gen as G  # noqa: E402
 
 PROP = "C06"
-ALARM_S = float(os.environ.get("C06_ALARM_S", "2"))
+ALARM_S = float(os.environ.get("C06_ALARM_S", "3"))
 CONFIRM_TIMEOUT_S = float(os.environ.get("C06_CONFIRM_S", "8"))
 
 K_DIGIT = "C06:step-name-digit-suffix-attributeerror"
@@ -109,6 +109,22 @@ def observe(doc):
             raise
         return {"status": "other", "type": type(e).__name__, "msg": str(e)[:300], "phase": "inspect",
                 "mro": [c.__name__ for c in type(e).__mro__], "where": None, "frames": []}
+
+
+def warmup():
+    """import everything the compiler needs BEFORE the watchdog is armed (an alarm that fires in the middle
+    of an import leaves a half-initialised module behind)"""
+    import yaml  # noqa
+    import pydantic  # noqa
+    import experiment.model.frontends.dsl as dsl
+    import experiment.model.errors  # noqa
+    import experiment.model.frontends.flowir  # noqa
+    try:
+        ns = dsl.Namespace(**{"entrypoint": {"entry-instance": "c", "execute": [{"target": "<entry-instance>"}]},
+                              "components": [{"signature": {"name": "c"}, "command": {"executable": "echo"}}]})
+        dsl.namespace_to_flowir(ns).validate()
+    except Exception:  # noqa
+        pass
 
 
 def observe_guarded(doc, w=None):
@@ -432,6 +448,7 @@ HANG_PRONE = ("reference-to-missing-inner-step", "reference-to-workflow-step")
 
 
 def run_job(job, w):
+    warmup()
     known = vlib.load_known_findings(PROP)
     hang_budget = job.get("hang_budget")          # None = unlimited
     if K_HANG not in known or os.environ.get("C06_NO_HANG_BUDGET"):
@@ -509,6 +526,7 @@ def run_one(argv):
     i = argv.index("--one")
     with open(argv[i + 1]) as f:
         doc = json.load(f)
+    warmup()
     out = observe(doc)
     tmp = argv[i + 2] + ".tmp"
     with open(tmp, "w") as f:
@@ -527,6 +545,7 @@ if "--one" in sys.argv:
 # --------------------------------------------------------------------------- main
 
 def replay(c, rp):
+    warmup()
     w = vlib.Worker()
     wit = rp["witness"]
     mut = wit.get("mutation")
